@@ -9,7 +9,8 @@ from ..cfg import CFG, ENTRY, EXIT, walk_own
 from ..charclass import S, members
 from ..core import PKG, Report
 from ..domain import CONFIG, CONST, ENUM, IDENT, NUM, WORD
-from .effects import (bind_call, callee_of, constant_of, effect_argument, effect_sites, in_context, local_sources, operand_av,
+from .c19loc import FieldFlow, Placement, below
+from .effects import (callee_of, constant_of, effect_argument, effect_sites, in_context, local_sources, operand_av,
                       performing, root_canonical, state_dependence)
 
 LEVEL = ("effect analysis: every filesystem/process effect site of the package is enumerated; its path operand (string "
@@ -48,7 +49,9 @@ def run(rep: Report, ctx: Any) -> str:
                       "enum member or text of the package; sanitiser alphabets contain no path separator / NUL and results cannot be "
                       "'.' or '..'; post-hooks run with cwd=project_dir")
     rep.rule("R19.2", "no effect before the existing-directory decision; the decision returns an error unless config.overwrite; "
-                      "the --overwrite flag reaches Config.overwrite unmodified")
+                      "the values of --overwrite and --output-path arrive - themselves, never rebound, nothing computed from them - in "
+                      "the fields of the same names of every Config constructed from the command line, and these fields are not "
+                      "assigned (nor replaced in a copy) afterwards")
     rep.rule("R19.3", "models/ and api/ are removed on every path before being rebuilt, and filled only once they are known to be new: "
                       "every write below them follows, on every path, a creation of the directory that fails when the path is still "
                       "there (or the removal cannot fail silently); nothing but these rebuilt directories (or paths below them) is ever "
@@ -59,9 +62,24 @@ def run(rep: Report, ctx: Any) -> str:
                       "containing one, or a local carrying its outcome) and none takes such an outcome as an argument; the one "
                       "sanctioned dependence is the refusal of an existing directory (R19.2). Creating a directory and removing a path "
                       "are not counted: doing so only when needed gives the same tree")
+    rep.rule("R19.5", "where told: on every path through the constructor of Project on which Config.output_path is set, project_dir ends up "
+                      "denoting that very location (the value itself, Path(...) of it, its absolute / resolved form, or the working "
+                      "directory joined with it) - tests on the field are decided by its being set however they are written, "
+                      "assignments made and values returned by helpers are followed; package_dir is project_dir or a path joined below "
+                      "it without a step back; neither is assigned outside the constructor")
     rep.assumptions += ["--output-path, project/package name overrides and the working directory are the user's own (CONFIG)",
                         "post-hook commands come from the configuration"]
     cfgs: dict[str, CFG] = {}
+    # floors are settled when everything has been looked at: a count that falls short aborts the analysis (exit 2) only when nothing has
+    # been reported - a violation that also moves an anchor (the output directory is composed differently, so nothing is recognised as
+    # lying below models/ any more) is reported as the violation it is, not hidden behind the shortfall it causes
+    short_of: list[tuple[str, int, int]] = []
+
+    def floor(what: str, n: int, minimum: int) -> None:
+        rep.indexed[what] = n
+        if n < minimum:
+            short_of.append((what, n, minimum))
+
     # an effect performed by a helper on a path it is handed (`_render_to(path, ...)`) is stated at each call of the helper, with the
     # argument as its path: destinations and the order of effects read the same whether a write is spelled out or routed through a helper
     effs = in_context(ix, effect_sites(ix))
@@ -83,7 +101,7 @@ def run(rep: Report, ctx: Any) -> str:
                 for alt in av.alts}
 
     rep.indexed["effect_sites"] = len(real)
-    rep.floor("effect_destinations", len({d for e, av in real for d in _dests(e, av)}), 11)
+    floor("effect_destinations", len({d for e, av in real for d in _dests(e, av)}), 11)
     proj = ix.cls("Project")
     for e, av in real:
         key = f"{short(e.func)}::{e.what}({norm(e.target)[:50] if e.target is not None else ''})"
@@ -271,38 +289,68 @@ def run(rep: Report, ctx: Any) -> str:
         rep.check(point is not None and cfg.is_dominated_by(s, lambda n: n is point), "R19.2", f"Project.build::{norm(s)[:50]}",
                   "an effect can happen before the existing-directory decision", where(build, s), lhs=norm(s)[:60],
                   rhs="dominated by the decision (mkdir try / test of its result)")
-    rep.floor("effectful_steps_in_build", n_calls, 2)
+    floor("effectful_steps_in_build", n_calls, 2)
     init = proj.methods.get("__init__")
     rep.check(not any(e.func is init for e, _ in real), "R19.2", "Project.__init__::no-effects", "effect in Project.__init__",
               where(init, init.node) if init else "")
-    # overwrite flag plumbing (shared with C16 R16.1): the values the command receives for --overwrite / --output-path arrive, never
-    # rebound, at the parameters of the same names of Config.from_sources - through whatever chain of calls of the package, by
-    # position or by keyword
+    # overwrite flag plumbing: the values the command receives for --overwrite / --output-path arrive - themselves, never rebound,
+    # nothing computed from them - in the fields of the same names of every Config constructed on the way, through whatever chain of
+    # calls of the package, by position, by keyword, through locals or through a keyword dictionary; no field is assigned afterwards
     cli_gen = ix.func("cli.generate")
-    rebound: list[str] = []
-
-    def forwarded(f: Any, pname: str, want: str, depth: int = 3, seen: tuple = ()) -> bool:
-        if any(isinstance(n, ast.Name) and n.id == pname and isinstance(n.ctx, (ast.Store, ast.Del)) for n in ast.walk(f.node)):
-            rebound.append(f"{short(f)}: {pname}")
-            return False
-        for c in ast.walk(f.node):
-            if not isinstance(c, ast.Call):
-                continue
-            g = callee_of(ix, f, c)
-            if g is None or g.qual in seen:
-                continue
-            for p_, a in (bind_call(ix, f, c, g) or {}).items():
-                if isinstance(a, ast.Name) and a.id == pname:
-                    if g.name == "from_sources" and p_ == want:
-                        return True
-                    if depth > 0 and forwarded(g, p_, want, depth - 1, (*seen, f.qual)):
-                        return True
-        return False
-
-    ok = all(forwarded(cli_gen, nm, nm) for nm in ("overwrite", "output_path"))
+    cfgc = ix.cls("Config")
+    flow = FieldFlow(ix, cfgc)
+    plumbed = ("overwrite", "output_path")
+    rep.require(all(nm in flow.fields for nm in plumbed) and all(any(p.arg == nm for p in cli_gen.params) for nm in plumbed),
+                "the overwrite / output_path options of the generate command and the fields of Config of the same names")
+    ok = all([flow.arrives(cli_gen, nm, nm) for nm in plumbed])
     rep.check(ok, "R19.2", "cli::overwrite-plumbing",
               "the --overwrite / --output-path values are modified or not forwarded verbatim on their way to Config", where(cli_gen, cli_gen.node),
-              lhs=rebound, rhs="forwarded unmodified")
+              lhs=flow.notes[:4], rhs="forwarded unmodified into Config(overwrite=, output_path=)")
+    later: list[str] = []
+    for f in ix.all_functions:
+        for n in ast.walk(f.node):
+            if isinstance(n, ast.Attribute) and n.attr in plumbed and isinstance(n.ctx, (ast.Store, ast.Del)):
+                later.append(f"{where(f, n)}: {norm(n)} is assigned")
+            elif isinstance(n, ast.Call):
+                cn = call_name(n).rsplit(".", 1)[-1]
+                if cn in ("setattr", "delattr", "__setattr__") and any(isinstance(a, ast.Constant) and a.value in plumbed for a in n.args):
+                    later.append(f"{where(f, n)}: {norm(n)[:60]}")
+                elif any(k.arg in plumbed for k in n.keywords) and callee_of(ix, f, n) is None and not flow.is_ctor(f, n) \
+                        and any(fv is not None and cfgc.qual in (fv.types or ()) for a in n.args for fv in [it.node_av.get(id(a))]):
+                    later.append(f"{where(f, n)}: {norm(n)[:60]} makes a copy of the configuration with another value")
+    rep.check(not later, "R19.2", "Config::overwrite-and-output-path-set-once",
+              "Config.overwrite / Config.output_path are given a value after the configuration has been built from the command line",
+              later[0].split(": ")[0] if later else where(cli_gen, cli_gen.node), lhs=later[:3], rhs="set by the constructor only")
+
+    # ---- R19.5 -----------------------------------------------------------------------------------------------------
+    # where told: whenever --output-path is given, project_dir is that very location, however the constructor is laid out
+    init = proj.methods.get("__init__")
+    rep.require(init, "Project.__init__")
+    given = Placement(ix, "output_path")
+    held = given.final(init, "project_dir")
+    wrong = [(g, x) for g, _gv, x in held if not (isinstance(x, ast.AST) and given.denotes(g, _gv, x))]
+    rep.check(bool(held) and not wrong, "R19.5", "Project.project_dir::is-the-output-path-when-given",
+              "with --output-path given, project_dir is not (on every path) the location it names: "
+              f"{[x if isinstance(x, str) else norm(x)[:70] for _g, x in wrong][:3]}",
+              where(wrong[0][0], wrong[0][1]) if wrong and isinstance(wrong[0][1], ast.AST) and hasattr(wrong[0][1], "lineno") else where(init, init.node),
+              lhs=[x if isinstance(x, str) else norm(x)[:70] for _g, x in wrong][:3] or [norm(x)[:70] for _g, _v, x in held][:3],
+              rhs="config.output_path (itself, Path(...) of it, .absolute() / .resolve(), cwd / it)")
+    anyway = Placement(ix, "output_path", decided=False)
+    pk = anyway.final(init, "package_dir")
+    outside = [(g, x) for g, _gv, x in pk if not below(g, x, "project_dir")]
+    rep.check(bool(pk) and not outside, "R19.5", "Project.package_dir::project_dir-or-below",
+              f"package_dir is not project_dir or a path joined below it: {[x if isinstance(x, str) else norm(x)[:70] for _g, x in outside][:3]}",
+              where(outside[0][0], outside[0][1]) if outside and isinstance(outside[0][1], ast.AST) and hasattr(outside[0][1], "lineno") else where(init, init.node),
+              lhs=[x if isinstance(x, str) else norm(x)[:70] for _g, x in outside][:3] or [norm(x)[:70] for _g, _v, x in pk][:3],
+              rhs="self.project_dir | self.project_dir / <component>")
+    inits = {g.qual for g in region(ix, init)} | {g.qual for g in proj.methods.values() if any(
+        callee_of(ix, init, c) is g for c in ast.walk(init.node) if isinstance(c, ast.Call))}
+    moved = [f"{where(f, n)}: {norm(n)}" for f in ix.all_functions for n in ast.walk(f.node)
+             if isinstance(n, ast.Attribute) and n.attr in OUTPUT_DIRS and isinstance(n.ctx, (ast.Store, ast.Del)) and f.qual not in inits]
+    rep.check(not moved, "R19.5", "Project::output-directories-set-in-constructor-only",
+              "project_dir / package_dir are assigned outside the constructor: the effects that follow go to another place than the one "
+              "the existing-directory decision was taken for", moved[0].split(": ")[0] if moved else where(init, init.node),
+              lhs=moved[:3], rhs="assigned in Project.__init__ (and the helpers it calls) only")
 
     # ---- R19.3 -----------------------------------------------------------------------------------------------------
     def place(av_: Any, dname: str) -> str | None:
@@ -417,7 +465,7 @@ def run(rep: Report, ctx: Any) -> str:
                 rep.check(lits.startswith("/models/") or lits.startswith("/api/"), "R19.3", f"{short(e.func)}::dynamic-name({dyn[0].text[:40]})",
                           "a file with a document-dependent name is written outside models/ and api/ (never cleaned up)", e.where,
                           lhs=lits, rhs="under /models/ or /api/")
-    rep.floor("writes_below_rebuilt_directories", sum(fresh_total.values()), 4)
+    floor("writes_below_rebuilt_directories", sum(fresh_total.values()), 4)
 
     # ---- R19.4 -----------------------------------------------------------------------------------------------------
     # regenerating converges on what a fresh generation produces only if every file is written (and every hook run) again, whatever
@@ -433,7 +481,11 @@ def run(rep: Report, ctx: Any) -> str:
                   f"`{norm(d.call)[:70]}` happens, or gets its arguments, depending on what the filesystem already holds ({d.on[:3]}): "
                   f"regenerating over an earlier generation no longer gives the tree a fresh generation produces", where(d.func, d.call),
                   lhs=d.on[:3], rhs="decided by the document and the configuration only")
-    rep.floor("state_independent_writes", n_indep, 10)
+    floor("state_independent_writes", n_indep, 10)
+    if short_of:
+        if not rep.findings:
+            rep.floor(*short_of[0])
+        rep.observe("instance counts below their floors, next to the violations reported: " + ", ".join(f"{w}={n} < {m}" for w, n, m in short_of))
     rep.not_decided += ["histories across different metadata flavours (excluded by the property) and file-system races"]
     return LEVEL
 
